@@ -26,76 +26,8 @@ import tempfile
 VERIF = os.path.dirname(os.path.dirname(os.path.abspath(__file__)))
 PY = '/venv/bin/python'
 
-L, X, P = 'pico8/lua/lua.py', 'pico8/lua/lexer.py', 'pico8/lua/parser.py'
-F8, FP = 'pico8/game/formatter/p8.py', 'pico8/game/formatter/p8png.py'
-B, CZ = 'pico8/build/build.py', 'pico8/game/compress.py'
-TARGETS = {
-    'C01': {L: ['LuaMinifyTokenWriter.to_lines',
-                'LuaMinifyTokenWriter._to_chunks'], X: ['TokString.code']},
-    'C02': {L: ['MinifyNameFactory.get_short_name',
-                'MinifyNameFactory._name_for_id',
-                'MinifyNameFactory.read_names_file',
-                'MinifyNameFactory.__init__']},
-    'C03': {F8: ['_get_raw_data_from_p8_file', 'P8Formatter.from_file',
-                 'P8Formatter.to_file'],
-            'pico8/util.py': ['BaseSection.from_lines', 'BaseSection.to_lines'],
-            'pico8/gfx/gfx.py': ['Gfx.from_lines', 'Gfx.to_lines'],
-            'pico8/sfx/sfx.py': ['Sfx.from_lines', 'Sfx.to_lines'],
-            'pico8/music/music.py': ['Music.from_lines', 'Music.to_lines']},
-    'C04': {FP: ['get_picodata_from_pngdata', 'get_pngdata_from_picodata',
-                 'get_bytes_from_code', 'get_code_from_bytes',
-                 'P8PNGFormatter.to_file', 'P8PNGFormatter.from_file',
-                 'get_raw_data_from_p8png_file']},
-    'C05': {CZ: ['_find_repeatable_block', 'compress_code',
-                 'decompress_code']},
-    'C06': {X: ['Lexer._process_token', 'TokString.code'],
-            L: ['LuaEchoWriter.to_lines']},
-    'C07': {X: ['Lexer._process_token', 'Lexer._process_line',
-                'Lexer.process_lines', 'TokNumber.value']},
-    'C08': {P: ['Parser._accept', 'Parser._stat', 'Parser._chunk',
-                'Parser.process_tokens', 'Parser._prefixexp',
-                'Parser._prefixexp_recur']},
-    'C09': {L: ['LuaASTEchoWriter._get_semis', 'LuaASTEchoWriter._get_text',
-                'LuaASTEchoWriter._get_name', 'LuaASTEchoWriter.to_lines',
-                'LuaASTEchoWriter._get_code_for_spaces',
-                'LuaASTEchoWriter._walk_StatIf',
-                'LuaASTEchoWriter._walk_FunctionCall',
-                'LuaFormatterWriter._get_code_for_spaces']},
-    'C10': {L: ['LuaFormatterWriter._get_code_for_spaces',
-                'LuaASTEchoWriter._walk_StatIf',
-                'LuaASTEchoWriter._walk_StatWhile',
-                'LuaASTEchoWriter._walk_TableConstructor',
-                'LuaASTEchoWriter._walk_FunctionArgs',
-                'LuaASTEchoWriter._walk_StatRepeat']},
-    'C11': {'pico8/game/file.py': ['to_file']},
-    'C12': {F8: ['get_root_include_path', 'process_includes'],
-            B: ['_locate_require_file']},
-    'C13': {B: ['do_build']},
-    'C14': {B: ['RequireWalker._walk_FunctionCall', '_evaluate_require',
-                '_prepend_package_lua']},
-    'C15': {L: ['unicode_to_p8scii', 'p8scii_to_unicode']},
-    'C16': {'pico8/gfx/gfx.py': ['Gfx.from_lines', 'Gfx.to_lines'],
-            'pico8/sfx/sfx.py': ['Sfx.from_lines', 'Sfx.to_lines',
-                                 'Sfx.get_note', 'Sfx.set_note'],
-            'pico8/music/music.py': ['Music.from_lines', 'Music.to_lines'],
-            'pico8/util.py': ['BaseSection.from_lines',
-                              'BaseSection.to_lines'],
-            FP: ['get_picodata_from_pngdata', 'get_pngdata_from_picodata']},
-    'C17': {'pico8/gfx/gfx.py': ['Gfx.get_sprite', 'Gfx.set_sprite'],
-            'pico8/map/map.py': ['Map.get_cell', 'Map.set_cell',
-                                 'Map.get_rect_tiles', 'Map.set_rect_tiles'],
-            'pico8/gff/gff.py': ['Gff.get_flags', 'Gff.set_flags',
-                                 'Gff.clear_flags'],
-            'pico8/sfx/sfx.py': ['Sfx.get_note', 'Sfx.set_note',
-                                 'Sfx.get_properties', 'Sfx.set_properties'],
-            'pico8/music/music.py': ['Music.get_channel', 'Music.set_channel',
-                                     'Music.get_properties',
-                                     'Music.set_properties']},
-    'C18': {'pico8/game/game.py': ['Game.write_cart_data']},
-    'C19': {L: ['LuaMinifyTokenWriter._to_chunks',
-                'LuaMinifyTokenWriter.to_lines']},
-    'C20': {F8: ['process_includes', 'lines_for_tab']},
-}
+sys.path.insert(0, VERIF)
+from pv.refs.anchors import TARGETS   # noqa: E402
 
 CMP = {ast.Lt: ['<='], ast.LtE: ['<'], ast.Gt: ['>='], ast.GtE: ['>'],
        ast.Eq: ['!='], ast.NotEq: ['=='], ast.Is: ['is not'],
